@@ -5,8 +5,8 @@
    pgpy/pgp.py    PGPSignature.__lt__ / exportable, PGPUID.selfsig / is_primary / __lt__ / __or__ / __copy__,
                   PGPKey.__or__ (attachment, embedded-signature extraction, OrderedDict of subkeys),
                   PGPKey.__bytearray__ (export order, exportable filter), PGPKey.__copy__, PGPKey.pubkey,
-                  PGPKey.parse (Trust filter, groupby on non-signature packets, Opaque groups skipped,
-                  several keys in one blob).
+                  PGPKey.parse (Trust filter, groupby on non-signature packets, Opaque groups skipped, the groups after an opaque
+                  primary key packet skipped up to the next understood primary key (repair bf7dbf5), several keys in one blob).
 
    Abstractions (everything else follows the code branch by branch):
    * key material is a label (Z): the public and the private half of one key share it, a key id / fingerprint
@@ -196,7 +196,8 @@ Inductive packet :=
 | PUid (isuid : bool) (c : list Z)
 | PSig (s : sig)
 | PTrust
-| POpaque (sigtag : bool) (id : Z).      (* an Opaque packet; sigtag = it carries the Signature tag *)
+| POpaque (sigtag : bool) (id : Z)       (* an Opaque packet; sigtag = it carries the Signature tag (else: a subkey of unknown version, or another tag) *)
+| POpaqueKey (id : Z).                   (* an Opaque packet with the PublicKey / SecretKey tag: a PRIMARY key of unknown version *)
 
 Definition export_sigs (l : list sig) : list packet :=
   flat_map (fun s => if exportable (s_core s) then [PSig s] else []) l.
@@ -211,7 +212,7 @@ Definition export (k : key) : list packet :=
 (* ---------- import (PGPKey.parse) ---------- *)
 Inductive result (A : Type) :=
 | Ok (a : A)
-| ErrLeadingSignature      (* first packet is a signature: grouping key None -> AttributeError *)
+| ErrLeadingSignature      (* before repair bf7dbf5: first packet is a signature: grouping key None -> None.endswith -> AttributeError *)
 | ErrNoPrimary             (* subkey or user id before any primary key: `None |= obj` -> TypeError (StopIteration before 84a9ce0) *)
 | ErrTypeError.            (* public subkey under a private key or the converse *)
 Arguments Ok {A} a.  Arguments ErrLeadingSignature {A}.  Arguments ErrNoPrimary {A}.  Arguments ErrTypeError {A}.
@@ -280,6 +281,41 @@ Definition upd_last (f : key -> result key) (l : list key) : result (list key) :
               end
   end.
 
+(* the `skipping` flag of PGPKey.parse, as a pass over the groups: it depends on the group heads alone.  An opaque primary key packet
+   sets it, an understood primary key packet clears it, and while it is set every group is passed over (`continue`) before anything is
+   built from it; opaque groups are passed over in any case *)
+Fixpoint drop_skipped (skipping : bool) (gs : list (packet * list packet)) : list (packet * list packet) :=
+  match gs with
+  | [] => []
+  | (h, ss) :: r =>
+    match h with
+    | POpaqueKey _ => drop_skipped true r
+    | POpaque _ _ => drop_skipped skipping r
+    | PKey true _ _ _ => (h, ss) :: drop_skipped false r
+    | _ => if skipping then drop_skipped true r else (h, ss) :: drop_skipped false r
+    end
+  end.
+
+(* Signatures before the first non-signature packet (grouping key None).  When the first of them is an Opaque packet the group is
+   passed over.  Otherwise the loop leaves through `else: break`: "Orphaned packet" warning, the rest of the group is consumed - at
+   which point itertools.groupby has already read the FIRST PACKET OF THE NEXT GROUP, and the `while True` starts a new groupby (and
+   a new grouper, last = None) over the same iterator: that packet is lost, and the signatures after it are again leading
+   signatures.  strip_orphans is what is left for the group loop *)
+Fixpoint drop_sigs (ps : list packet) : list packet :=
+  match ps with
+  | p :: r => if is_sigpkt p then drop_sigs r else ps
+  | [] => []
+  end.
+Fixpoint strip_orphans (fuel : nat) (ps : list packet) : list packet :=
+  match fuel with
+  | O => []
+  | S f =>
+    match ps with
+    | PSig _ :: _ => match drop_sigs ps with [] => [] | _ :: r => strip_orphans f r end
+    | _ => ps
+    end
+  end.
+
 Section Import.
   (* the three attachment operations, so that the pre-repair code can be run through the same parser *)
   Variable kos : list item -> sig -> list item.
@@ -302,7 +338,7 @@ Section Import.
       | ErrTypeError => ErrTypeError
       end in
     match h with
-    | POpaque _ _ => Ok st                     (* `if not _.endswith('Opaque')` *)
+    | POpaque _ _ | POpaqueKey _ => Ok st      (* `if isinstance(pkt, Opaque): ... continue` (what else an opaque primary key does: drop_skipped) *)
     | PKey prim pub cs l =>
       let its := fold_left kos sl [] in
       if prim then Ok (keys_set {| p_label := l; p_public := pub; p_sigs := its; p_uids := []; p_subs := [] |} ks, Some (l, pub))
@@ -325,29 +361,40 @@ Section Import.
                 end
     end.
 
+  (* pre_bf7 = the code before repair bf7dbf5: signatures before the first non-signature packet raise (AttributeError), and an opaque
+     primary key packet is skipped like any other opaque packet - what follows it is given to the key parsed before it.
+     Now: leading signatures are orphaned packets (strip_orphans; a leading group that starts with an opaque signature is just passed
+     over), and the groups after an opaque primary key packet up to the next understood primary key packet are skipped (drop_skipped) *)
+  Variable pre_bf7 : bool.
   Definition import_with (ps : list packet) : result (list key) :=
-    let (lead, gs) := groups (filter not_trust ps) in
-    match lead with
-    | [] => import_groups gs ([], None)
-    | _ :: _ => ErrLeadingSignature
-    end.
+    if pre_bf7 then
+      let (lead, gs) := groups (filter not_trust ps) in
+      match lead with
+      | [] => import_groups gs ([], None)
+      | _ :: _ => ErrLeadingSignature
+      end
+    else
+      let ps' := filter not_trust ps in
+      import_groups (drop_skipped false (snd (groups (strip_orphans (S (length ps')) ps')))) ([], None).
 End Import.
 
 (* PGPKey.parse as it is now; the returned list is the `keys` dictionary in order (its first element is the
    object from_blob returns as the key) *)
-Definition import : list packet -> result (list key) := import_with key_or_sig uid_or_sig key_or_uid (fun s => s) upd_cur.
+Definition import : list packet -> result (list key) := import_with key_or_sig uid_or_sig key_or_uid (fun s => s) upd_cur false.
+(* before repair bf7dbf5 *)
+Definition import_pre_bf7 : list packet -> result (list key) := import_with key_or_sig uid_or_sig key_or_uid (fun s => s) upd_cur true.
 
 (* before repair 84a9ce0 *)
 Definition import_prefix_dup : list packet -> result (list key) :=
-  import_with key_or_sig uid_or_sig key_or_uid (fun s => s) (fun _ => upd_last).
+  import_with key_or_sig uid_or_sig key_or_uid (fun s => s) (fun _ => upd_last) false.
 
 (* before repair 812bc0f: identities ordered through selfsig_old *)
 Definition import_old_selfsig : list packet -> result (list key) :=
-  import_with key_or_sig uid_or_sig key_or_uid_old (fun s => s) upd_cur.
+  import_with key_or_sig uid_or_sig key_or_uid_old (fun s => s) upd_cur false.
 
 (* before the F9 repair *)
 Definition import_prefix_f9 : list packet -> result (list key) :=
-  import_with key_or_sig_prefix uid_or_sig_prefix key_or_uid_prefix (fun s => s) upd_cur.
+  import_with key_or_sig_prefix uid_or_sig_prefix key_or_uid_prefix (fun s => s) upd_cur false.
 
 (* before the F2 repair: a parsed Boolean subpacket lost its value (an explicit exportable=True read back as False) *)
 Definition psig_prefix_f2 (s : sig) : sig :=
@@ -357,7 +404,7 @@ Definition psig_prefix_f2 (s : sig) : sig :=
                   c_primary := c_primary c; c_info := c_info c; c_signer := c_signer c; c_digest := c_digest c |};
      s_emb := s_emb s |}.
 Definition import_prefix_f2 : list packet -> result (list key) :=
-  import_with key_or_sig uid_or_sig key_or_uid psig_prefix_f2 upd_cur.
+  import_with key_or_sig uid_or_sig key_or_uid psig_prefix_f2 upd_cur false.
 
 (* ---------- copy, public twin, and what both have in common ---------- *)
 (* PGPUID.__copy__ *)
